@@ -256,6 +256,7 @@ where
             let ghost x = nn.take(i as int) + w.skip(i as int);
             let ghost x2 = nn.take(i as int + 1) + w.skip(i as int + 1);
             proof {
+                assert(i < it_old.seq().len()); assert(i < w.len() && i < nn.len());
                 assert(*old_ == w[i as int] && *new == nn[i as int]);
                 assert(x2 =~= x.update(i as int, nn[i as int]));
             }
@@ -294,7 +295,7 @@ where
                 {
                     let ghost z = less_state(nn, w, i as int);
                     let ghost z2 = less_state(nn, w, i as int + 1);
-                    proof { assert(*item == w[i as int]); }
+                    proof { assert(i < it_item.seq().len()); assert(i < w.len()); assert(*item == w[i as int]); }
                     if i >= new_ws.len() {
                         if item.is_some() {
                             proof { lemma_trim_prefix(z); }
